@@ -1,11 +1,51 @@
 import PyxModel.Sexp
-import Driver.OSet
+import Driver.C01
+import Driver.C02
+import Driver.C03
+import Driver.C04
+import Driver.C05
+import Driver.C06
+import Driver.C07
+import Driver.C08
+import Driver.C09
+import Driver.C10
+import Driver.C11
+import Driver.C12
+import Driver.C13
+import Driver.C14
+import Driver.C15
+import Driver.C16
+import Driver.C17
+import Driver.C18
+import Driver.C19
+import Driver.C20
 
-/-! line-protocol driver: one s-expression command per line, one answer per line -/
+/-! line-protocol driver: one s-expression command per line, one answer per line.
+    Each property owns Driver/Cxx.lean and its command heads; `handle` returns `none`
+    for commands that are not its own. -/
 open Pyx Pyx.Sexp
 
 def handlers : List (List Sexp → Option Sexp) :=
-  [ Pyx.Driver.OSetD.handle ]
+  [ Pyx.Driver.C01.handle,
+    Pyx.Driver.C02.handle,
+    Pyx.Driver.C03.handle,
+    Pyx.Driver.C04.handle,
+    Pyx.Driver.C05.handle,
+    Pyx.Driver.C06.handle,
+    Pyx.Driver.C07.handle,
+    Pyx.Driver.C08.handle,
+    Pyx.Driver.C09.handle,
+    Pyx.Driver.C10.handle,
+    Pyx.Driver.C11.handle,
+    Pyx.Driver.C12.handle,
+    Pyx.Driver.C13.handle,
+    Pyx.Driver.C14.handle,
+    Pyx.Driver.C15.handle,
+    Pyx.Driver.C16.handle,
+    Pyx.Driver.C17.handle,
+    Pyx.Driver.C18.handle,
+    Pyx.Driver.C19.handle,
+    Pyx.Driver.C20.handle ]
 
 def answer (line : String) : String :=
   match Sexp.parse line with
